@@ -16,46 +16,40 @@ import (
 func strAxioms(features map[string]bool, quant bool) []string {
 	var ax []string
 	// length is non-negative: instantiated by pattern
-	ax = append(ax, "(forall ((s Str)) (! (>= (str.len s) 0) :pattern ((str.len s))))")
+	ax = append(ax, "(forall ((s Str)) (! (>= (s.len s) 0) :pattern ((s.len s))))")
 	if features["strcat"] {
-		ax = append(ax, "(forall ((a Str) (b Str)) (! (= (str.len (str.cat a b)) (+ (str.len a) (str.len b))) :pattern ((str.cat a b))))")
-		ax = append(ax, "(forall ((a Str) (b Str) (i Int)) (! (= (str.at (str.cat a b) i) (ite (< i (str.len a)) (str.at a i) (str.at b (- i (str.len a))))) :pattern ((str.at (str.cat a b) i))))")
+		ax = append(ax, "(forall ((a Str) (b Str)) (! (= (s.len (s.cat a b)) (+ (s.len a) (s.len b))) :pattern ((s.cat a b))))")
+		ax = append(ax, "(forall ((a Str) (b Str) (i Int)) (! (= (s.at (s.cat a b) i) (ite (< i (s.len a)) (s.at a i) (s.at b (- i (s.len a))))) :pattern ((s.at (s.cat a b) i))))")
 	}
 	if features["strsub"] {
-		ax = append(ax, "(forall ((s Str) (lo Int) (hi Int) (i Int)) (! (=> (and (<= 0 i) (< i (- hi lo))) (= (str.at (str.sub s lo hi) i) (str.at s (+ lo i)))) :pattern ((str.at (str.sub s lo hi) i))))")
-		ax = append(ax, "(forall ((s Str) (lo Int) (hi Int)) (! (=> (and (<= 0 lo) (<= lo hi) (<= hi (str.len s))) (= (str.len (str.sub s lo hi)) (- hi lo))) :pattern ((str.sub s lo hi))))")
-		ax = append(ax, "(forall ((s Str)) (! (= (str.sub s 0 (str.len s)) s) :pattern ((str.sub s 0 (str.len s)))))")
+		ax = append(ax, "(forall ((s Str) (lo Int) (hi Int) (i Int)) (! (=> (and (<= 0 i) (< i (- hi lo))) (= (s.at (s.sub s lo hi) i) (s.at s (+ lo i)))) :pattern ((s.at (s.sub s lo hi) i))))")
+		ax = append(ax, "(forall ((s Str) (lo Int) (hi Int)) (! (=> (and (<= 0 lo) (<= lo hi) (<= hi (s.len s))) (= (s.len (s.sub s lo hi)) (- hi lo))) :pattern ((s.sub s lo hi))))")
+		ax = append(ax, "(forall ((s Str)) (! (= (s.sub s 0 (s.len s)) s) :pattern ((s.sub s 0 (s.len s)))))")
 	}
 	if features["strlt"] {
 		// strict total order (trichotomy is assumed, see DESIGN 3.3)
-		ax = append(ax, "(forall ((a Str)) (! (not (str.lt a a)) :pattern ((str.lt a a))))")
-		ax = append(ax, "(forall ((a Str) (b Str)) (! (=> (str.lt a b) (not (str.lt b a))) :pattern ((str.lt a b))))")
-		ax = append(ax, "(forall ((a Str) (b Str) (c Str)) (! (=> (and (str.lt a b) (str.lt b c)) (str.lt a c)) :pattern ((str.lt a b) (str.lt b c))))")
-		ax = append(ax, "(forall ((a Str) (b Str)) (! (or (str.lt a b) (= a b) (str.lt b a)) :pattern ((str.lt a b))))")
-		ax = append(ax, "(forall ((a Str) (b Str)) (! (or (str.lt a b) (= a b) (str.lt b a)) :pattern ((str.lt b a))))")
+		ax = append(ax, "(forall ((a Str)) (! (not (s.lt a a)) :pattern ((s.lt a a))))")
+		ax = append(ax, "(forall ((a Str) (b Str)) (! (=> (s.lt a b) (not (s.lt b a))) :pattern ((s.lt a b))))")
+		ax = append(ax, "(forall ((a Str) (b Str) (c Str)) (! (=> (and (s.lt a b) (s.lt b c)) (s.lt a c)) :pattern ((s.lt a b) (s.lt b c))))")
+		ax = append(ax, "(forall ((a Str) (b Str)) (! (or (s.lt a b) (= a b) (s.lt b a)) :pattern ((s.lt a b))))")
+		ax = append(ax, "(forall ((a Str) (b Str)) (! (or (s.lt a b) (= a b) (s.lt b a)) :pattern ((s.lt b a))))")
 		// the empty string is the least element
-		ax = append(ax, "(forall ((a Str) (b Str)) (! (=> (and (= (str.len a) 0) (> (str.len b) 0)) (str.lt a b)) :pattern ((str.lt a b))))")
-		ax = append(ax, "(forall ((a Str) (b Str)) (! (=> (= (str.len b) 0) (not (str.lt a b))) :pattern ((str.lt a b))))")
-		ax = append(ax, "(forall ((a Str) (b Str)) (! (=> (and (= (str.len a) 0) (= (str.len b) 0)) (= a b)) :pattern ((str.len a) (str.len b))))")
+		ax = append(ax, "(forall ((a Str) (b Str)) (! (=> (and (= (s.len a) 0) (> (s.len b) 0)) (s.lt a b)) :pattern ((s.lt a b))))")
+		ax = append(ax, "(forall ((a Str) (b Str)) (! (=> (= (s.len b) 0) (not (s.lt a b))) :pattern ((s.lt a b))))")
+		ax = append(ax, "(forall ((a Str) (b Str)) (! (=> (and (= (s.len a) 0) (= (s.len b) 0)) (= a b)) :pattern ((s.len a) (s.len b))))")
 	}
 	if features["strprefix"] {
-		ax = append(ax, "(forall ((p Str) (s Str)) (! (=> (str.prefix p s) (<= (str.len p) (str.len s))) :pattern ((str.prefix p s))))")
-		ax = append(ax, "(forall ((s Str)) (! (str.prefix s s) :pattern ((str.prefix s s))))")
-		ax = append(ax, "(forall ((p Str) (s Str)) (! (=> (= (str.len p) 0) (str.prefix p s)) :pattern ((str.prefix p s))))")
+		ax = append(ax, "(forall ((p Str) (s Str)) (! (=> (s.prefix p s) (<= (s.len p) (s.len s))) :pattern ((s.prefix p s))))")
+		ax = append(ax, "(forall ((s Str)) (! (s.prefix s s) :pattern ((s.prefix s s))))")
+		ax = append(ax, "(forall ((p Str) (s Str)) (! (=> (= (s.len p) 0) (s.prefix p s)) :pattern ((s.prefix p s))))")
 	}
 	return ax
 }
 
-// smtFile renders the SMT-LIB query of one obligation.
-func (o *Obligation) smtFile(timeoutMs int) string {
-	u := o.unit
+func (u *Unit) smtHeader(ncmds int) string {
 	var sb strings.Builder
 	sb.WriteString("(set-option :produce-models true)\n")
-	if u.usesQuant || len(u.features) > 0 {
-		sb.WriteString("(set-logic ALL)\n")
-	} else {
-		sb.WriteString("(set-logic ALL)\n")
-	}
+	sb.WriteString("(set-logic ALL)\n")
 	sb.WriteString(u.w.preludeFixed())
 	for _, d := range u.w.dtDecls {
 		sb.WriteString(d)
@@ -63,7 +57,7 @@ func (o *Obligation) smtFile(timeoutMs int) string {
 	}
 	sb.WriteString(u.w.strLitDecls())
 	sb.WriteString("(define-fun nilbytes () Bytes (bytes true " + u.w.strLit("").S + "))\n")
-	for _, c := range u.cmds[:o.NCmds] {
+	for _, c := range u.cmds[:ncmds] {
 		sb.WriteString(c)
 		sb.WriteByte('\n')
 	}
@@ -73,6 +67,14 @@ func (o *Obligation) smtFile(timeoutMs int) string {
 	for _, a := range strAxioms(u.features, u.usesQuant) {
 		sb.WriteString("(assert " + a + ")\n")
 	}
+	return sb.String()
+}
+
+// smtFile renders the SMT-LIB query of one obligation.
+func (o *Obligation) smtFile(timeoutMs int) string {
+	u := o.unit
+	var sb strings.Builder
+	sb.WriteString(u.smtHeader(o.NCmds))
 	for _, f := range u.facts[:o.NFacts] {
 		sb.WriteString("(assert " + f + ")\n")
 	}
@@ -120,7 +122,15 @@ func runSolver(ctx context.Context, sp solverSpec, file string, timeoutS int) so
 	_ = cmd.Run()
 	secs := time.Since(t0).Seconds()
 	s := out.String()
-	first := strings.TrimSpace(strings.SplitN(s, "\n", 2)[0])
+	first := ""
+	for _, l := range strings.Split(s, "\n") {
+		l = strings.TrimSpace(l)
+		if l == "" || strings.HasPrefix(l, "WARNING") || strings.HasPrefix(l, "(warning") {
+			continue
+		}
+		first = l
+		break
+	}
 	res := solveResult{solver: sp.name, out: s, secs: secs}
 	switch first {
 	case "unsat":
@@ -228,22 +238,89 @@ func (u *Unit) usesStrAt() bool {
 	}
 	u.strAtChecked = true
 	for _, c := range u.cmds {
-		if strings.Contains(c, "str.at") {
+		if strings.Contains(c, "s.at") {
 			u.strAt = true
 			return true
 		}
 	}
 	for _, f := range u.facts {
-		if strings.Contains(f, "str.at") {
+		if strings.Contains(f, "s.at") {
 			u.strAt = true
 			return true
 		}
 	}
 	for _, o := range u.obls {
-		if strings.Contains(o.Goal.S, "str.at") {
+		if strings.Contains(o.Goal.S, "s.at") {
 			u.strAt = true
 			return true
 		}
 	}
 	return false
+}
+
+// batchDischarge runs all obligations of one unit through a single incremental z3-new process.
+// Only "unsat" answers are used; everything else is left for the per-obligation race.
+func batchDischarge(u *Unit, obls []*Obligation, dir string, perQueryMs int) {
+	if len(obls) == 0 {
+		return
+	}
+	var sb strings.Builder
+	sb.WriteString(u.smtHeader(len(u.cmds)))
+	fmt.Fprintf(&sb, "(set-option :timeout %d)\n", perQueryMs)
+	nf := 0
+	for _, o := range obls {
+		for nf < o.NFacts {
+			sb.WriteString("(assert " + u.facts[nf] + ")\n")
+			nf++
+		}
+		sb.WriteString("(push 1)\n")
+		if o.Cover {
+			sb.WriteString("(assert " + o.Guard.S + ")\n")
+		} else {
+			sb.WriteString("(assert " + And(o.Guard, Not(o.Goal)).S + ")\n")
+		}
+		sb.WriteString("(check-sat)\n(pop 1)\n")
+	}
+	file := filepath.Join(dir, fmt.Sprintf("u%06d.smt2", obls[0].id))
+	if err := os.WriteFile(file, []byte(sb.String()), 0o666); err != nil {
+		return
+	}
+	total := perQueryMs/1000*len(obls) + 10
+	ctx, cancel := context.WithTimeout(context.Background(), time.Duration(total)*time.Second)
+	defer cancel()
+	t0 := time.Now()
+	cmd := exec.CommandContext(ctx, "z3-new", "smt.random_seed="+seedStr, file)
+	var out bytes.Buffer
+	cmd.Stdout = &out
+	cmd.Stderr = &out
+	_ = cmd.Run()
+	secs := time.Since(t0).Seconds()
+	var answers []string
+	for _, l := range strings.Split(out.String(), "\n") {
+		l = strings.TrimSpace(l)
+		switch l {
+		case "sat", "unsat", "unknown", "timeout":
+			answers = append(answers, l)
+		default:
+			if strings.HasPrefix(l, "(error") {
+				// a malformed query poisons the rest of the session: stop trusting the batch
+				return
+			}
+		}
+	}
+	for i, o := range obls {
+		if i >= len(answers) {
+			break
+		}
+		want := "unsat"
+		if o.Cover {
+			want = "sat"
+		}
+		if answers[i] == want {
+			o.Status = "discharged"
+			o.Solver = "z3-new(incremental)"
+			o.TimeS = secs / float64(len(obls))
+			o.SMTSize = sb.Len() / len(obls)
+		}
+	}
 }
